@@ -230,6 +230,8 @@ package main
 //@   requires [C13] s != nil && msg != nil && msg.Pub != nil && globals.hub != nil
 //@   modifies *
 //@   ensures [C13] answered: outTotal > old(outTotal) || sentTotal() > old(sentTotal())
+//@   ensures [C02] sender_header_server_controlled: sentTotal() > old(sentTotal()) && msg.Pub.Head != nil && ("sender" in msg.Pub.Head) ==> old(msg.AsUser) != s.uid.UserId()
+//@   ensures [C02] content_untouched: msg.Pub.Content == old(msg.Pub.Content) && msg.Pub.NoEcho == old(msg.Pub.NoEcho)
 //@   nopanic
 //@   safe
 //@ func (s *Session) subscribe(msg *ClientComMessage)
